@@ -43,7 +43,11 @@ def gen(rng, tier):
            'send_pauses': rng.random() < 0.4,
            # thread world: free schedule (an emit and a membership change
            # issued by two application threads interleave at every send)
-           'policy': rng.choice(['fifo', 'random', 'pct'])}
+           'policy': rng.choice(['fifo', 'random', 'pct']),
+           # the application's own handlers use the rooms: the connect
+           # handler puts the client into 'lobby', the disconnect handler
+           # "moves" it (leaves 'lobby', enters 'limbo') on its way out
+           'handlers_use_rooms': rng.random() < 0.4}
     ops = []
     for p in range(npeers):
         ops.append(['open', p])
@@ -192,6 +196,23 @@ def _run(case, cfg, w):
         srv.on('x', w.make_handler(('s', 'func', ns, 'x'),
                                    lambda l, a, e: [('ret', None)]),
                namespace=ns)
+    if cfg.get('handlers_use_rooms'):
+        def hplan(label, args, ev):
+            ns, sid = label[2], args[0]
+            if label[3] == 'connect':
+                return [('do', lambda: srv.enter_room(sid, 'lobby',
+                                                      namespace=ns)),
+                        ('ret', None)]
+            return [('do', lambda: srv.leave_room(sid, 'lobby',
+                                                  namespace=ns)),
+                    ('do', lambda: srv.enter_room(sid, 'limbo',
+                                                  namespace=ns)),
+                    ('ret', None)]
+        for ns in cfg['served']:
+            for evn in ('connect', 'disconnect'):
+                srv.on(evn, w.make_handler(('s', 'func', ns, evn), hplan,
+                                           coroutine=w.mode == 'async'),
+                       namespace=ns)
     sc = Scene(w)
     model = RoomModel()
     states = set()
@@ -250,6 +271,8 @@ def _run(case, cfg, w):
                 if ns not in cfg['served']:
                     v.add('unserved_namespace_accepted', where)
                 model.connect(sid, ns)
+                if cfg.get('handlers_use_rooms'):
+                    model.enter(sid, ns, 'lobby')
         elif k == 'enter':
             _, p, ns, r = op
             sid = sc.sid(p, ns) or 'ghost-%d' % p
